@@ -10,6 +10,10 @@ from drive_core import domain_digest
 from drive_hist import type_correct_args
 from pddl_plus_parser.exporters import DomainExporter, ProblemExporter
 
+# one exporter object per process serves every export (a result kept on the object shows in the next export)
+DOMAIN_EXPORTER = DomainExporter()
+PROBLEM_EXPORTER = ProblemExporter()
+
 
 def export_domain_event(dom, dh, new_h, state_handles, calls=None):
     ev, d2, t2 = _export_domain_event(dom, dh, new_h, state_handles)
@@ -20,7 +24,7 @@ def export_domain_event(dom, dh, new_h, state_handles, calls=None):
 
 def _export_domain_event(dom, dh, new_h, state_handles):
     try:
-        text = DomainExporter().extract_domain(dom)
+        text = DOMAIN_EXPORTER.extract_domain(dom)
         tree = sexp_reader.read(text)
     except Exception as e:  # noqa: BLE001
         return {"c": "ExportDomain", "d": dh, "h": new_h, "u": "p", "states": state_handles, "out": {"exc": pylib.exc_name(e)}}, None, None
@@ -111,14 +115,14 @@ def run_case(case, opts):
         ev.append(e2)
     # the problem: export, read, re-parse with the library
     try:
-        ptext2 = ProblemExporter().extract_problem(prob)
+        ptext2 = PROBLEM_EXPORTER.extract_problem(prob)
         ptree2 = sexp_reader.read(ptext2)
         eo = {"tree": ptree2}
         ev.append({"c": "ExportProblem", "p": "p", "out": eo})
         out2, prob2 = pylib.observe_problem(ptext2, dom)
         ev.append({"c": "ParseProblem", "h": "p2", "d": "d", "tree": ptree2, "out": out2})
         if prob2 is not None:
-            ptext3 = ProblemExporter().extract_problem(prob2)
+            ptext3 = PROBLEM_EXPORTER.extract_problem(prob2)
             ev.append({"c": "ExportProblem", "p": "p2", "out": {"tree": sexp_reader.read(ptext3)}})
     except Exception as e:  # noqa: BLE001
         ev.append({"c": "ExportProblem", "p": "p", "out": {"exc": pylib.exc_name(e)}})
